@@ -247,6 +247,22 @@ def canon_sign(d: Rat):
     return flip, prim
 
 
+_PI = Fraction("3.14159265358979323846264338327950288419716939937510")
+
+
+def pi_sign(d: Rat):
+    """sign of a rational function of pi alone, or None when too close to zero to call"""
+    lo, hi = _PI - Fraction(1, 10 ** 45), _PI + Fraction(1, 10 ** 45)
+    try:
+        vals = [d.subs({"pi": Rat.const(p)}) for p in (lo, hi)]
+    except ZeroDivisionError:
+        return None
+    if not all(v.is_const() for v in vals):
+        return None
+    sg = [(v.const_value() > 0) - (v.const_value() < 0) for v in vals]
+    return sg[0] if sg[0] == sg[1] and sg[0] != 0 else None
+
+
 class SignOracle:
     """Trace partitioning over the signs of the expressions a path compares.  `assume` maps canonical keys to
     -1 / 0 / +1.  A comparison whose sign is neither assumed nor derivable (a monomial in atoms of assumed sign)
@@ -257,18 +273,23 @@ class SignOracle:
         self.fixed = fixed                # callable(prim) -> sign | None: facts of the rule (positivity of a radius, ...)
         self.used = {}
 
-    def __call__(self, prim, node=None):
-        k = prim.key()
+    def __call__(self, d, node=None):
+        """sign of the difference d of a comparison"""
         if self.fixed is not None:
-            s = self.fixed(prim)
+            s = self.fixed(d)
             if s is not None:
                 return s
-        if k in self.assume:
-            self.used[k] = self.assume[k]
-            return self.assume[k]
-        s = self.derive(prim)
+        s = angle_range_sign(d)          # principal-value angles against multiples of pi: decided by the range
         if s is not None:
             return s
+        flip, prim = canon_sign(d)
+        k = prim.key()
+        if k in self.assume:
+            self.used[k] = self.assume[k]
+            return flip * self.assume[k]
+        s = self.derive(prim)
+        if s is not None:
+            return flip * s
         raise NeedSign(k, prim, node)
 
     def derive(self, prim):
@@ -290,6 +311,51 @@ class SignOracle:
                 if e % 2:
                     sgn *= sa
         return sgn
+
+
+def monomial_sign(d: Rat, atom_sign):
+    """sign of d when it is (a constant times) a quotient of monomials in atoms whose signs atom_sign(atom) -> -1|0|1|None gives"""
+    if len(d.num) != 1 or len(d.den) != 1:
+        return None
+    sgn = 1
+    for poly in (d.num, d.den):
+        (m, c), = poly.items()
+        if c < 0:
+            sgn = -sgn
+        for a, e in mono_items(m):
+            sa = atom_sign(a)
+            if sa is None:
+                return None
+            if sa == 0:
+                return 0
+            if e % 2:
+                sgn *= sa
+    return sgn
+
+
+def angle_range_sign(d: Rat):
+    """sign of d = c*angle + r(pi) for one principal-value angle atom (arctan2 / arccos / arcsin / arctan) from its range,
+    when the range decides it (e.g. arctan2(..) - pi <= 0 is answered 'not positive' only if strict: returns None at a tie)"""
+    from .poly import ATOM_ARGS
+    ang = [a for a in d.atoms() if a in ATOM_ARGS and ATOM_ARGS[a][0] in ("arctan2", "arccos", "arcsin", "arctan")]
+    if len(ang) != 1 or not (d.atoms() <= {ang[0], "pi"}):
+        return None
+    a = ang[0]
+    lo, hi = {"arctan2": (-1, 1), "arccos": (0, 1), "arcsin": (Fraction(-1, 2), Fraction(1, 2)), "arctan": (Fraction(-1, 2), Fraction(1, 2))}[ATOM_ARGS[a][0]]
+    signs = set()
+    for end in (lo, hi):
+        v = d.subs({a: Rat.atom("pi") * Rat.const(end)})
+        if v.is_zero():
+            signs.add(0)
+            continue
+        sg = pi_sign(v) if not v.is_const() else ((v.const_value() > 0) - (v.const_value() < 0))
+        if sg is None:
+            return None
+        signs.add(sg)
+    signs.discard(0)
+    if len(signs) == 1:
+        return signs.pop()      # weakly that sign on the whole range; the tie is the end point of the range
+    return None
 
 
 def enumerate_signs(run, max_paths=729, fixed=None):
@@ -336,6 +402,7 @@ class Evaluator:
     def __init__(self, mod, inline=True, branch_policy=None, call_policy=None, max_depth=6, import_policy=None,
                  sign_policy=None):
         self.mod = mod
+        self.threshold_policy = None      # (quantity, small positive threshold, node) -> True (inside the band) | False | None
         self.sign_policy = sign_policy    # (canonical difference, node) -> -1 | 0 | 1 | None  (may raise NeedSign)
         self.inline = inline              # True: every module-level function; or a set of names
         self.branch_policy = branch_policy
@@ -826,14 +893,28 @@ class Evaluator:
             # `x != None` with x a symbolic value: x is not None
             r = (a is None and b is None)
             return r if isinstance(op, ast.Eq) else not r
-        if self.sign_policy is not None and isinstance(a, (Rat, int, float, Fraction)) and isinstance(b, (Rat, int, float, Fraction)) \
+        if isinstance(a, (Rat, int, float, Fraction)) and isinstance(b, (Rat, int, float, Fraction)) \
                 and not isinstance(a, bool) and not isinstance(b, bool):
             d = scalar(a) - scalar(b)
-            if not d.is_const():
-                flip, prim = canon_sign(d)
-                sg = self.sign_policy(prim, node)
+            if not d.is_const() and d.atoms() <= {"pi"}:
+                # a closed expression in pi: decided numerically (exact rational arithmetic around a 50-digit pi)
+                sg = pi_sign(d)
                 if sg is not None:
-                    a, b = Rat.const(flip * sg), Rat.const(0)
+                    a, b, d = Rat.const(sg), Rat.const(0), Rat.const(sg)
+            if not d.is_const() and self.threshold_policy is not None:
+                # `quantity < small positive literal` (either orientation): a tolerance band
+                sa, sb = scalar(a), scalar(b)
+                for q, t, swap in ((sa, sb, False), (sb, sa, True)):
+                    if t.is_const() and not q.is_const() and 0 < t.const_value() <= Fraction(1, 1000):
+                        below = self.threshold_policy(q, t.const_value(), node)
+                        if below is not None:
+                            sg = -1 if below else 1
+                            a, b, d = Rat.const(-sg if swap else sg), Rat.const(0), Rat.const(1)
+                        break
+            if not d.is_const() and self.sign_policy is not None:
+                sg = self.sign_policy(d, node)         # sign of (left - right)
+                if sg is not None:
+                    a, b = Rat.const(sg), Rat.const(0)
         x, y = norm(a), norm(b)
         try:
             if isinstance(op, ast.Eq):
@@ -1280,6 +1361,8 @@ class Evaluator:
             return r if (fname == "cos" or not neg) else -r
         if fname == "exp" and x.is_zero():
             return Rat.const(1)
+        if fname == "arccos" and x.is_const() and x.const_value() in (1, 0, -1):
+            return {1: Rat.const(0), 0: Rat.atom("pi") / 2, -1: Rat.atom("pi")}[int(x.const_value())]
         return func_atom(fname, x)
 
     def np_call(self, name, args, kwargs, node):
